@@ -156,6 +156,12 @@ def bind_args(call, callee, method=None):
         if k.arg is None:
             raise AnalysisError(f"**kwargs in {src(call)}")
         out[k.arg] = k.value
+    # an argument that spells out the parameter's literal default is the same call as leaving it out
+    dfl = callee.defaults()
+    for p in list(out):
+        d = dfl.get(p)
+        if d is not None and isinstance(out[p], ast.Constant) and isinstance(d, ast.Constant) and type(out[p].value) is type(d.value) and out[p].value == d.value:
+            del out[p]
     return out
 
 
@@ -376,12 +382,62 @@ def who_calls(repo, name):
 # guards
 # ----------------------------------------------------------------------------
 
+def _edge_clause(expr, truth):
+    """the disjunction known on the `truth` edge of a test that is not a conjunction of atoms there: `a and b` false is (not a) or
+    (not b); `a or b` true is a or b.  [(atom, truth)] with atomic literals only, or None."""
+    e, t = expr, truth
+    while True:
+        if isinstance(e, ast.UnaryOp) and isinstance(e.op, ast.Not):
+            e, t = e.operand, not t
+        elif isinstance(e, ast.Call) and isinstance(e.func, ast.Name) and e.func.id == "bool" and len(e.args) == 1 and not e.keywords:
+            e = e.args[0]
+        else:
+            break
+    if not (isinstance(e, ast.BoolOp) and len(e.values) > 1 and ((isinstance(e.op, ast.And) and not t) or (isinstance(e.op, ast.Or) and t))):
+        return None
+    lits = []
+    for v in e.values:
+        fs = edge_facts(v, t)
+        if len(fs) != 1:
+            return None
+        lits.append(fs[0])
+    return lits
+
+
 def facts_at(flow, node):
-    """[(atom_ast, truth)] facts holding at node by dominance of branch edges."""
-    out = []
+    """[(atom_ast, truth)] facts holding at node by dominance of branch edges; a disjunction known on an edge (`if a and b:` not taken)
+    contributes the one literal that is left once the others are refuted by facts from other edges (`elif a:` taken -> not b)."""
+    out, where, clauses = [], [], []
     for t, lab in flow.cfg.edges_dominating(node):
         if t.kind == "test":
-            out += edge_facts(t.expr, lab)
+            fs = edge_facts(t.expr, lab)
+            out += fs
+            where += [t] * len(fs)
+            cl = _edge_clause(t.expr, lab)
+            if cl:
+                clauses.append((t, cl))
+    if clauses:
+        key = lambda a: " ".join(ast.unparse(a).split())
+
+        def same_values(a, t1, t2):
+            for x in ast.walk(a):
+                if isinstance(x, ast.Name) and flow.defs_at(t1, x.id) != flow.defs_at(t2, x.id):
+                    return False
+            return True
+        changed = True
+        while changed:
+            changed = False
+            for tc, cl in list(clauses):
+                left = []
+                for a, tr in cl:
+                    k = key(a)
+                    if any(key(b) == k and tb != tr and same_values(a, tc, tw) for (b, tb), tw in zip(out, where)):
+                        continue
+                    left.append((a, tr))
+                if len(left) == 1:
+                    out.append(left[0]); where.append(tc)
+                    clauses.remove((tc, cl))
+                    changed = True
     return out
 
 
